@@ -6,6 +6,8 @@ package main
 import (
 	"fmt"
 	"hash/fnv"
+	"math/rand"
+	"sync/atomic"
 	"os"
 	"path/filepath"
 	"runtime"
@@ -444,6 +446,14 @@ func genC18(g *gen) {
 		}
 		g.emit("sched file %d %s", []int{0, 1000, 4194304}[g.r.Intn(3)], strings.Join(ops, " "))
 	}
+	// accessors called while a writer and a reader are at work (every call must come back; the range only moves forward)
+	for i := 0; i < g.pick(8, 60); i++ {
+		req := []int{0, 4096, 8192, 9000}[g.r.Intn(4)]
+		g.emit("stress mem %d %d %d %d", req, 200000+g.r.Intn(800000), []int{7, 100, 3000, 9000}[g.r.Intn(4)], g.r.Intn(1<<30))
+	}
+	for i := 0; i < g.pick(2, 8); i++ {
+		g.emit("stress file %d %d %d %d", []int{0, 1000}[g.r.Intn(2)], 6000000+g.r.Intn(6000000), []int{4096, 100000, 1 << 20}[g.r.Intn(3)], g.r.Intn(1<<30))
+	}
 	// small-write traffic on the file backend (no wrap: exercises the growing file)
 	for i := 0; i < g.pick(3, 12); i++ {
 		genC18Sched(g, "file", 0, 4194304, 60, 0)
@@ -723,8 +733,135 @@ func runC18(f []string) string {
 		return fmt.Sprint(backlog.VerifC18Align(atoi(f[1]), atoi(f[2])))
 	case "sched":
 		return runC18Sched(f)
+	case "stress":
+		return runC18Stress(f)
 	}
 	return "badcase"
+}
+
+// stress <mem|file> <req> <total> <chunk> <seed>: one goroutine writes <total> bytes in chunks of about <chunk>, a reader follows
+// it, and two goroutines keep asking DataRange / IsValid / Offset / SeekTo all the while. Every call must come back (the accessors
+// take the lock the writer holds, they must not wait for anything else), the reported range must be the most recent
+// min(written, capacity) bytes at every moment (low and high end never go back, width never above the capacity), and at the end
+// it is exactly that. Result: ok d=<lo>:<hi> | hang:<who> | bad:<what>
+func runC18Stress(f []string) string {
+	req, total, chunk := atoi(f[2]), atoi(f[3]), atoi(f[4])
+	seed, _ := strconv.ParseInt(f[5], 10, 64)
+	var bl *backlog.Backlog
+	switch f[1] {
+	case "mem":
+		bl = backlog.NewSize(req)
+	case "file":
+		path := filepath.Join(c18tmpDir(), fmt.Sprintf("c18-stress-%d.backlog", os.Getpid()))
+		fh, err := os.OpenFile(path, os.O_CREATE|os.O_RDWR|os.O_TRUNC, 0600)
+		if err != nil {
+			return "tmpfile-error"
+		}
+		defer os.Remove(path)
+		defer fh.Close()
+		bl = backlog.NewFileBacklog(req, fh)
+	default:
+		return "badcase"
+	}
+	defer bl.Close()
+	stop := make(chan struct{})
+	type rep struct{ who, what string }
+	res := make(chan rep, 8)
+	writerDone := make(chan struct{})
+	go func() {
+		defer close(writerDone)
+		r := rand.New(rand.NewSource(seed))
+		buf := make([]byte, 2*chunk+1)
+		for w := 0; w < total; {
+			n := 1 + r.Intn(2*chunk)
+			if n > total-w {
+				n = total - w
+			}
+			for i := 0; i < n; i++ {
+				buf[i] = byte(w + i)
+			}
+			if m, err := bl.Write(buf[:n]); err != nil || m != n {
+				res <- rep{"writer", fmt.Sprintf("bad:write=%d,%v", m, err)}
+				return
+			}
+			w += n
+		}
+	}()
+	var lastCall [3]int64 // unix nanos at which each poller entered its current call (0 = between calls)
+	poll := func(id int, useReader bool) {
+		var rd *backlog.Reader
+		if useReader {
+			rd, _ = bl.NewReader()
+		}
+		var plo, phi uint64
+		for {
+			select {
+			case <-stop:
+				res <- rep{fmt.Sprint("poller", id), "ok"}
+				return
+			default:
+			}
+			atomic.StoreInt64(&lastCall[id], time.Now().UnixNano())
+			lo, hi, err := bl.DataRange()
+			if rd != nil {
+				rd.IsValid()
+				rd.Offset()
+				rd.SeekTo(hi)
+			}
+			atomic.StoreInt64(&lastCall[id], 0)
+			if err != nil || lo > hi || lo < plo || hi < phi {
+				res <- rep{fmt.Sprint("poller", id), fmt.Sprintf("bad:range=%d:%d:after=%d:%d:%v", lo, hi, plo, phi, err)}
+				return
+			}
+			plo, phi = lo, hi
+			runtime.Gosched()
+		}
+	}
+	go poll(0, false)
+	go poll(1, true)
+	// a reader that follows the writer, as the consumers of the backlog do
+	go func() {
+		rd, err := bl.NewReader()
+		if err != nil {
+			return
+		}
+		b := make([]byte, chunk+3)
+		for {
+			if _, err := rd.Read(b); err != nil {
+				return
+			}
+		}
+	}()
+	select {
+	case <-writerDone:
+	case r := <-res:
+		close(stop)
+		return r.what
+	case <-time.After(60 * time.Second):
+		close(stop)
+		return "hang:writer"
+	}
+	close(stop)
+	for k := 0; k < 2; k++ {
+		select {
+		case r := <-res:
+			if r.what != "ok" {
+				return r.what
+			}
+		case <-time.After(5 * time.Second):
+			for id := 0; id < 2; id++ {
+				if t := atomic.LoadInt64(&lastCall[id]); t != 0 {
+					return fmt.Sprintf("hang:poller%d", id)
+				}
+			}
+			return "hang:poller"
+		}
+	}
+	lo, hi, err := bl.DataRange()
+	if err != nil {
+		return "bad:final"
+	}
+	return fmt.Sprintf("ok d=%d:%d", lo, hi)
 }
 
 func runC18Sched(f []string) string {
